@@ -26,6 +26,12 @@ type c16Params struct {
 	// Writers: 0 none, 1 Write x2, 2 Write x2 + streaming Writer
 	Writers int
 	Pinger  bool
+	// Stall: the transport accepts only a few bytes until virtual time 1s, so the
+	// write of the Close frame is in progress for a while; meanwhile a writer
+	// (GiveUp: "write" | "ping") waits for the frame lock until its context is
+	// cancelled at 500ms, and another writer with a healthy context arrives.
+	Stall  bool
+	GiveUp string
 }
 
 type c16State struct {
@@ -44,6 +50,33 @@ func c16Setup(prm c16Params) func(c *fw.Ctx, name string) explore.Setup {
 				bg := vctx.Background()
 				if prm.Init == "limit" {
 					conn.SetReadLimit(5)
+				}
+				if prm.Stall {
+					st.p.Window = 3
+					closeBegun := func() {
+						st.p.WaitOut("close-begun", func(out []byte) bool { return len(out) > 0 })
+					}
+					w.GoHarness("drainer", false, func() {
+						vtime.Sleep(time.Second)
+						st.p.SetWindow(0)
+					})
+					w.GoHarness("giveup", true, func() {
+						closeBegun()
+						ctx, cancel := vctx.WithCancel(bg)
+						w.GoHarness("canceller", false, func() {
+							vtime.Sleep(500 * time.Millisecond)
+							cancel()
+						})
+						if prm.GiveUp == "ping" {
+							conn.Ping(ctx)
+						} else {
+							conn.Write(ctx, websocket.MessageText, []byte("gave-up"))
+						}
+					})
+					w.GoHarness("late-writer", true, func() {
+						closeBegun()
+						conn.Write(bg, websocket.MessageText, []byte("late"))
+					})
 				}
 				if prm.Writers >= 1 {
 					w.GoHarness("writer", true, func() {
@@ -210,6 +243,13 @@ func c16Scenarios(tier string) []scenario {
 			add(c16Params{Name: "local-" + echo + "-w2", K: k, Init: "local", Echo: echo, Writers: 2}, P(1), P(2))
 		}
 		add(c16Params{Name: "local-early-ping", K: k, Init: "local", Echo: "early", Writers: 1, Pinger: true}, P(1), P(2))
+		for _, gu := range []string{"write", "ping"} {
+			add(c16Params{Name: "local-stalled-giveup-" + gu, K: k, Init: "local", Echo: "early", Stall: true, GiveUp: gu}, P(1), P(3))
+			add(c16Params{Name: "peer-stalled-giveup-" + gu, K: k, Init: "peer", Echo: "early", Stall: true, GiveUp: gu}, P(1), P(2))
+			if tier == "thorough" {
+				add(c16Params{Name: "proto-stalled-giveup-" + gu, K: k, Init: "proto", Echo: "early", Stall: true, GiveUp: gu}, P(1), P(2))
+			}
+		}
 		for _, init := range []string{"peer", "proto", "limit", "closeread"} {
 			add(c16Params{Name: init + "-w1", K: k, Init: init, Echo: "early", Writers: 1}, P(2), P(3))
 			add(c16Params{Name: init + "-w2", K: k, Init: init, Echo: "early", Writers: 2}, P(1), P(2))
